@@ -30,6 +30,7 @@ from typing import Any, Optional
 
 from .. import assign_common as ac
 from .. import c12_constfold as K
+from .. import c12_decls as DD
 from .. import c12_fragments as F
 from .. import codec, core, pyz
 
@@ -306,6 +307,13 @@ def observe_const(arg: tuple[int, dict]) -> list[dict]:
     return observe_source(tid * 2, src, {"slice": "const", "const": p["const"]}, lambda lineno: 0, _no_marker)
 
 
+# --------------------------------------------------------------------------- D: declaration-level class bodies
+def observe_decl(arg: tuple[int, dict]) -> list[dict]:
+    tid, p = arg
+    src = DD.render(p["decl"])
+    return observe_source(tid * 2, src, {"slice": "decl", "decl": p["decl"]}, lambda lineno: 0, _no_marker)
+
+
 # --------------------------------------------------------------------------- V / R: the public value API
 def _tvmap():
     from pyanalyze import value as V
@@ -460,8 +468,9 @@ def adjudicate(groups: list[list[dict]], parallel: int = 8) -> tuple[dict[Any, l
 
 
 def judge(check: core.Check, progs: list[dict], layouts: list[dict], pairs: list[dict], rts: list[dict], label: str,
-          consts: Optional[list[dict]] = None) -> None:
+          consts: Optional[list[dict]] = None, decls: Optional[list[dict]] = None) -> None:
     consts = consts or []
+    decls = decls or []
     import time as _t
 
     t0 = _t.time()
@@ -470,7 +479,10 @@ def judge(check: core.Check, progs: list[dict], layouts: list[dict], pairs: list
     per_lay = core.pmap(observe_layout, [(base + i, p) for i, p in enumerate(layouts)], chunk=40)
     base = len(progs) + len(layouts)
     per_const = core.pmap(observe_const, [(base + i, p) for i, p in enumerate(consts)], chunk=4)
-    base = 2 * (len(progs) + len(layouts) + len(consts))
+    base = len(progs) + len(layouts) + len(consts)
+    per_decl = core.pmap(observe_decl, [(base + i, p) for i, p in enumerate(decls)], chunk=10)
+    per_const = per_const + per_decl
+    base = 2 * (len(progs) + len(layouts) + len(consts) + len(decls))
     vals = core.pmap(observe_values, [(base + i, p) for i, p in enumerate(pairs)], chunk=500)
     base += len(pairs)
     rtobs = core.pmap(observe_rt, [(base + i, p) for i, p in enumerate(rts)], chunk=500)
@@ -486,9 +498,9 @@ def judge(check: core.Check, progs: list[dict], layouts: list[dict], pairs: list
     for tid, vs in sorted(verdicts.items()):
         evs = by_tid.get(tid, [])
         first = evs[0] if evs else {}
-        case = {k: first[k] for k in ("prog", "layout", "const", "a", "b", "o") if first.get(k) not in (None, [], {})}
+        case = {k: first[k] for k in ("prog", "layout", "const", "decl", "a", "b", "o") if first.get(k) not in (None, [], {})}
         src = (render(first["prog"]) if first.get("slice") == "frag" else render_layout(first["layout"]) if first.get("slice") == "layout"
-               else K.render(first["const"]) if first.get("slice") == "const" else None)
+               else K.render(first["const"]) if first.get("slice") == "const" else DD.render(first["decl"]) if first.get("slice") == "decl" else None)
         bad = [e for e in evs if e["event"] in ("Raised", "Diag", "ValueOp", "RtOp")]
         for v in sorted(set(vs)):
             payload = {"case": case, "config": first.get("config"), "verdict": v, "source": label, "src": src,
@@ -501,7 +513,7 @@ def judge(check: core.Check, progs: list[dict], layouts: list[dict], pairs: list
                 check.drift(payload)
             else:
                 raise core.MachineryError(f"unexpected verdict {v} for tid {tid}")
-    check.evals(2 * (len(progs) + len(layouts) + len(consts)) + sum(v["nops"] for v in vals) + sum(v["nops"] for v in rtobs))
+    check.evals(2 * (len(progs) + len(layouts) + len(consts) + len(decls)) + sum(v["nops"] for v in vals) + sum(v["nops"] for v in rtobs))
     for p in progs:
         check.nontrivial(core.canon(p["prog"]))
     for p in layouts:
@@ -510,6 +522,11 @@ def judge(check: core.Check, progs: list[dict], layouts: list[dict], pairs: list
         check.nontrivial(core.canon([p["a"], p["b"]]))
     for p in consts:
         check.nontrivial(core.canon(p["const"]))
+    for p in decls:
+        check.nontrivial(core.canon(p["decl"]))
+    skipped = sum(1 for evs in per_decl for e in evs if e["event"] == "End" and e.get("skipped"))
+    check.cov["declaration_modules"] = check.cov.get("declaration_modules", 0) + len(decls)
+    check.cov["declaration_modules_not_importable"] = check.cov.get("declaration_modules_not_importable", 0) + skipped // 2
     check.cov["constant_expressions"] = check.cov.get("constant_expressions", 0) + sum(
         len(p["const"]["xs"]) * max(1, len(p["const"]["ys"])) for p in consts)
     ndiag = sum(1 if e["event"] == "Diag" else e.get("same_as_other_config", 0) for evs in per_prog + per_lay + per_const for e in evs
@@ -586,6 +603,17 @@ def selftest_trace_oracle(check: core.Check) -> None:
     expect[32] = ("viol:InternalError", [{**beginv, "tid": 32}, {**good, "tid": 32, "frag": 1, "code": "internal_error",
                                           "exck": "AssertionError", "site": "signature.py:substitute_typevars",
                                           "exc": "Internal error: AssertionError(TypedValue(typ=<class 'int'>, literal_only=False))"}, end(32)])
+    # the seeded duplicate-enum-member crash is a violation; the open display class is excused for its own values only
+    begind = {**begin, "slice": "decl", "decl": {"kind": "enum", "v": "tup_list"}}
+    begindh = {**begin, "slice": "decl", "decl": {"kind": "module_const", "v": "hash_runtimeerror"}}
+    expect[33] = ("viol:InternalError", [{**begind, "tid": 33}, {**good, "tid": 33, "code": "internal_error", "exck": "TypeError", "site": "name_check_visitor.py:visit_Assign",
+                                          "exc": "Internal error: TypeError(\"unhashable type: 'list'\")"}, end(33)])
+    expect[34] = ("dev:hash-exception-in-literal-display", [{**begindh, "tid": 34}, {**good, "tid": 34, "code": "internal_error", "exck": "RuntimeError",
+                                          "site": "name_check_visitor.py:visit_Dict", "exc": "Internal error: RuntimeError('__hash__ raises')"}, end(34)])
+    expect[35] = ("viol:InternalError", [{**begind, "tid": 35}, {**good, "tid": 35, "code": "internal_error", "exck": "RuntimeError",
+                                          "site": "name_check_visitor.py:visit_Dict", "exc": "Internal error: RuntimeError('__hash__ raises')"}, end(35)])
+    expect[36] = ("viol:InternalError", [{**begindh, "tid": 36}, {**good, "tid": 36, "code": "internal_error", "exck": "RuntimeError",
+                                          "site": "name_check_visitor.py:visit_Assign", "exc": "Internal error: RuntimeError('__hash__ raises')"}, end(36)])
     # the open input-side classes excuse nothing outside their own fragment kind
     expect[27] = ("viol:InternalError", case(27, {"code": "internal_error", "exck": "TypeError", "site": "name_check_visitor.py:_visit_single_compare",
                                                   "exc": "Internal error: TypeError(\"'>' not supported between instances of 'sys.version_info' and 'str'\")"}))
@@ -655,6 +683,7 @@ def run(check: core.Check) -> None:
         f_val = ex.submit(core.run_tlc, "TotalityEmit", "Totality.vals.cfg", timeout=1800, workers=4)
         f_rt = ex.submit(core.run_tlc, "TotalityEmit", "Totality.rt.cfg", timeout=1800, workers=2)
         f_pairs = ex.submit(core.run_tlc, "AssignEmit", "Assign.emit1.cfg", timeout=1800, workers=4)
+        f_decl = ex.submit(core.run_tlc, "TotalityEmit", "Totality.decl.cfg", timeout=1800, workers=2)
         f_const = ex.submit(core.run_tlc, "TotalityEmit", "Totality.const.cfg" if quick else "Totality.constfull.cfg", timeout=1800, workers=2)
         em = core.require_ok(f_em.result(), "Totality emit")
         sim = f_sim.result()
@@ -664,6 +693,7 @@ def run(check: core.Check) -> None:
         rem = core.require_ok(f_rt.result(), "runtime pairs")
         pem = core.require_ok(f_pairs.result(), "value pairs emit")
         kem = core.require_ok(f_const.result(), "constant-folding cases")
+        dem = core.require_ok(f_decl.result(), "declaration cases")
     core.require_coverage(em, ["Next"], "Totality")
     check.add_tlc("emit1", em)
     progs = core.emitted_json(em)
@@ -678,6 +708,10 @@ def run(check: core.Check) -> None:
     rts = core.emitted_json(rem)
     check.add_tlc("value-pairs", pem)
     allpairs = core.emitted_json(pem)
+    check.add_tlc("declarations", dem)
+    decls = core.emitted_json(dem)
+    if {(d["decl"]["kind"], d["decl"]["v"]) for d in decls} != {(k, v) for k in DD.KINDS for v in DD.VALUES}:
+        raise core.MachineryError("Totality.tla DKinds / DValues and harness/c12_decls.py disagree")
     check.add_tlc("constant-folding", kem)
     consts = core.emitted_json(kem)
     fams = K.families()   # the tables of the renderer and of Totality.tla (KFamilies / KArity) must be the same
@@ -709,13 +743,17 @@ def run(check: core.Check) -> None:
         "WideTerms x WideTerms of TotalityValues.tla (quick: the callable family CallFamily x CallFamily, the diagonal and 4000 sampled pairs) + Assign.tla's pairs, 12 binary operations "
         "per pair + 25 unary ones on the union; runtime API on RtObjects x RtTypes; constant folding = every operation of the 15 "
         "families (f-string specs / conversions / nested specs, % and str.format, calls, operators) x 21 constants x second-operand "
-        "menu (quick: 11 values, thorough: 21; exponents and repeat counts from the small menu), one module per operation; non-trivial = distinct modules / layouts / pairs")
-    judge(check, progs, layouts, pairs + wide, rts, "tlc-generated", consts)
+        "menu (quick: 11 values, thorough: 21; exponents and repeat counts from the small menu), one module per operation; "
+        "declarations = every declaration kind (Enum / IntEnum / Flag bodies, dataclasses, NamedTuple, TypedDict, Protocol, plain "
+        "class, module constant) x every member value incl. nominally hashable but unhashable ones, class statement at module level; non-trivial = distinct modules / layouts / pairs")
+    judge(check, progs, layouts, pairs + wide, rts, "tlc-generated", consts, decls)
 
 
 def replay(check: core.Check, witness: dict) -> None:
     c = witness["case"]
-    if c.get("const"):
+    if c.get("decl"):
+        judge(check, [], [], [], [], "replay", [], [{"decl": c["decl"]}])
+    elif c.get("const"):
         judge(check, [], [], [], [], "replay", [{"const": c["const"]}])
     elif c.get("prog"):
         judge(check, [{"prog": c["prog"]}], [], [], [], "replay")
